@@ -952,8 +952,8 @@ impl Engine for ChainSim {
     }
     fn budget(&self, cfg: &Cfg) -> Budget {
         match cfg.tier {
-            Tier::Quick => Budget { runs: 40_000, max_secs: 40.0 },
-            Tier::Thorough => Budget { runs: 2_000_000, max_secs: 480.0 },
+            Tier::Quick => Budget { runs: 100_000, max_secs: 40.0 },
+            Tier::Thorough => Budget { runs: 5_000_000, max_secs: 480.0 },
         }
     }
     fn generate(&self, rng: &mut Rng, cfg: &Cfg) -> Case {
